@@ -550,6 +550,12 @@ class Source:
             return bnp.open(file_path(self.d, self.tag)).read_chunks(self.k)
         if self.how == "table":
             return make_table(self.d.kind, self.d.entries)
+        if self.how == "table_strkey":
+            # in-memory table of a user-defined entry type whose contig column is declared `str` (ragged text):
+            # the group-by behind the synchronisation takes its ragged-key path
+            from .streamsim import strkey_class
+            e = self.d.entries
+            return strkey_class()([x[0] for x in e], [x[1] for x in e], [x[2] for x in e])
         return make_stream(self.d)
 
     def genomic(self, genome):
@@ -737,6 +743,18 @@ class PileupIndex(Consumer):
         return compare_segments(env.g, segs, ragged_rows(raw), "pileup_rows")
 
 
+class PileupIndexMemory(PileupIndex):
+    """reads.get_pileup()[peaks] with the reads streamed and the peaks given as an IN-MEMORY table handed to
+    Genome.get_intervals: the library itself walks the in-memory table chromosome by chromosome"""
+    name = "pileup_index_memory"
+
+    def run(self, env):
+        bnp = core.bnp()
+        reads = env.a.genomic(env.G)
+        peaks = env.G.get_intervals(make_table("interval", env.b.d.entries))
+        return bnp.compute(reads.get_pileup()[peaks])
+
+
 class TrackData(Consumer):
     name = "track_data"          # bnp.compute(track.get_data())
     kind = "bedgraph"
@@ -777,7 +795,7 @@ class MsExhaust(Consumer):
     name = "ms_exhaust"          # every attribute of a MultiStream iterated to its end by the caller
     family = "contiglist"
     nstreams = 2
-    hows = ("stream", "file", "table")
+    hows = ("stream", "file", "table", "table_strkey")
 
     def run(self, env):
         ms = _multistream(env)
@@ -811,7 +829,7 @@ class _Similarity(Consumer):
     family = "contiglist"
     nstreams = 2
     vulnerable = 1
-    hows = ("stream", "file", "table")
+    hows = ("stream", "file", "table", "table_strkey")
     func = "forbes"
 
     def _f(self):
@@ -848,7 +866,7 @@ class Jaccard(_Similarity):
 class MsWrite(Consumer):
     name = "ms_write"            # writer.write(synchronised stream)
     family = "contiglist"
-    hows = ("stream", "file", "table")
+    hows = ("stream", "file", "table", "table_strkey")
 
     def run(self, env):
         bnp = core.bnp()
@@ -917,6 +935,6 @@ class EarlyBreak(Consumer):
         return None
 
 
-CONSUMERS = [ComputeGI(), ComputeTuple(), ComputeDict(), ForIter(), MaskSum(), PileupData(), TwoTuple(), PileupIndex(),
+CONSUMERS = [ComputeGI(), ComputeTuple(), ComputeDict(), ForIter(), MaskSum(), PileupData(), TwoTuple(), PileupIndex(), PileupIndexMemory(),
              TrackData(), TrackSum(), MsExhaust(), Forbes(), Jaccard(), MsWrite(), LeftJoin(), CallerZip(), EarlyBreak()]
 BY_NAME = {c.name: c for c in CONSUMERS}
